@@ -25,6 +25,22 @@ Cases == ndJsonDeserialize(IOEnv.VERIF_CASES)
 
 Message(c) == EncO(StructT(c.w), ExpS(c.w, c.val), c.ord) \o c.trail
 
+\* extents <<start, length>> of the top-level fields of a well-formed message
+RECURSIVE TopFields(_, _, _)
+TopFields(m, i, acc) ==
+  IF m[i] = TSTOP THEN acc
+  ELSE LET n == 3 + Skip(m[i], m, i + 3, 100000) IN TopFields(m, i + n, Append(acc, <<i, n>>))
+
+\* "dupdrop": every message obtained by writing one top-level field twice and leaving another one out
+\* (plus: only duplicated, only dropped)
+DupDrop(m) ==
+  LET fs == TopFields(m, 1, <<>>)
+      n == Len(fs)
+      piece(j) == SubSeq(m, fs[j][1], fs[j][1] + fs[j][2] - 1)
+      build(dup, drop) == Flat([j \in 1..n |-> IF j = drop THEN <<>> ELSE IF j = dup THEN piece(j) \o piece(j) ELSE piece(j)]) \o <<TSTOP>>
+      pairs == {<<a, b>> \in (0..n) \X (0..n) : a # b \/ a = 0} \ {<<0, 0>>} IN
+  [x \in 1..Cardinality(pairs) |-> build(SetToSeq(pairs)[x][1], SetToSeq(pairs)[x][2])]
+
 \* every legal type code, the gaps between them, the first illegal codes, extreme bytes
 SubstAlphabet == {0, 1, 2, 3, 4, 5, 6, 7, 8, 9, 10, 11, 12, 13, 14, 15, 16, 17, 127, 128, 254, 255}
 LenAlphabet == << <<255, 255, 255, 255>>, <<127, 255, 255, 255>>, <<0, 0, 0, 0>>, <<0, 1, 0, 0>>, <<128, 0, 0, 0>> >>
@@ -41,6 +57,7 @@ Mutants(m, mut) ==
          [j \in 1..Len(s) |->
             [m EXCEPT ![s[j][1]] = IF s[j][2] >= 0 THEN s[j][2]
                                    ELSE IF s[j][2] = -1 THEN m[s[j][1]] + 1 ELSE m[s[j][1]] - 1]]
+    [] mut = "dupdrop" -> DupDrop(m)
     [] mut = "len" ->
          Flat(Mat([i \in 1..(IF Len(m) >= 4 THEN Len(m) - 3 ELSE 0) |->
                  [a \in 1..Len(LenAlphabet) |->
